@@ -145,6 +145,14 @@ class Lower:
                 if a in n:
                     rec = self.idx.rec_by_name.get(n.replace(a, b))
                     if rec is not None: return ('rec', rec)
+        m = re.match(r'^((?:\w+::)*\w+)_t<(.*)>$', n)
+        if m and depth < 5:
+            # alias template X_t<Args> = typename X<Args>::type: read the member alias `type` of the specialisation X<Args> from the AST
+            rec = self.idx.rec_by_name.get('%s<%s>' % (m.group(1), m.group(2)))
+            if rec is not None:
+                al = [x for x in rec.get('inner', []) if x.get('kind') in ('TypeAliasDecl', 'TypedefDecl') and x.get('name') == 'type']
+                if len(al) == 1:
+                    return self.tparse(al[0]['type'].get('desugaredQualType') or al[0]['type']['qualType'])
         if depth < 5 and n.endswith('>') and '<' in n:
             # trailing template arguments left to a default that names an earlier parameter (multiplicity<0> = multiplicity<0,0>)
             head = n[:n.index('<')]; args = split_top(n[n.index('<') + 1:-1])
